@@ -21,7 +21,7 @@ func init() {
 		Assume: []string{"writers in the concurrent sub-workload only add cells, so that GC(M_final) <= final is implied by the statement for every pass instant", "the activity sub-workload uses no constant from the code: 'in use' = touched at most 1 s of wall clock ago"},
 		Run:    runC16,
 	})
-	expectedProbes["C16"] = []string{"c16.condemned", "c16.many_rows_pass", "c16.round_skipped_table_used_during_round", "c16.boundary_cell", "c16.write_inside_pass", "c16.active_table_skipped", "c16.touched_after_long_idle", "c16.rows_wholly_condemned", "c16.server_clock_skewed", "c16.idle_table_collected", "c16.union", "c16.intersection_untouched"}
+	expectedProbes["C16"] = []string{"c16.condemned", "c16.many_rows_pass", "c16.round_skipped_table_used_during_round", "c16.boundary_cell", "c16.write_inside_pass", "c16.active_table_skipped", "c16.touched_after_long_idle", "c16.rows_wholly_condemned", "c16.rule_relaxed_and_rows_written_during_pass", "c16.round_with_concurrent_schema_changes", "c16.server_clock_skewed", "c16.idle_table_collected", "c16.union", "c16.intersection_untouched"}
 }
 
 func c16Rule(d *draws) *btapb.GcRule {
@@ -268,7 +268,7 @@ func c16Concurrent(r *Run, cfg *Stream) {
 	if d.n(3) == 0 {
 		rule = &btapb.GcRule{Rule: &btapb.GcRule_MaxAge{MaxAge: &durationpb.Duration{Seconds: 10}}}
 		doomed = true
-		r.Probe("c16.rows_wholly_condemned")
+		r.Probe("c16.rows_wholly_condemned", "c16.rule_relaxed_and_rows_written_during_pass", "c16.round_with_concurrent_schema_changes")
 	}
 	fams := map[string]*btapb.GcRule{"f1": rule, "f2": nil}
 	now := int64(1_700_000_000_000_000)
@@ -361,6 +361,36 @@ func c16Concurrent(r *Run, cfg *Stream) {
 			}
 		})
 	}
+	// in a quarter of the runs an administrator relaxes the rule of f1 while the pass is running
+	// (nothing is condemned any more) and, once that is acknowledged, writes rows of several
+	// versions at the end of the key space. Those cells were only ever subject to the new rule.
+	relaxed := map[string]ORow{}
+
+	if d.n(4) == 3 {
+		s.Go("admin", func() {
+			for gcCall == 0 && !r.Failed() {
+				s.Yield("admin.wait")
+			}
+			loose := &btapb.GcRule{Rule: &btapb.GcRule_MaxNumVersions{MaxNumVersions: 1000}}
+			mod := []*btapb.ModifyColumnFamiliesRequest_Modification{{Id: "f1", Mod: &btapb.ModifyColumnFamiliesRequest_Modification_Update{Update: &btapb.ColumnFamily{GcRule: loose}}}}
+			if _, err := w.ModifyFamilies(c16Tbl, mod); err != nil {
+				r.Fail("admin-failed", "", "ModifyColumnFamilies(update f1) during a pass: %v", err)
+				return
+			}
+			for i := 0; i < 3; i++ {
+				k := fmt.Sprintf("zzz%d", i)
+				m := mutList{setCell("f1", "q", now-40_000_000, "v1"), setCell("f1", "q", now-50_000_000, "v2"), setCell("f1", "q", now-60_000_000, "v3")}
+				if err := w.MutateRow(c16Tbl, k, m); err != nil {
+					r.Fail("writer-failed", "", "admin write on %q: %v", k, err)
+					return
+				}
+				relaxed[k] = mt.applyMutations(mRow{}, m, now).row.render(k)
+			}
+			if gcRet == 0 {
+				r.Probe("c16.rule_relaxed_and_rows_written_during_pass")
+			}
+		})
+	}
 	s.Go("gc", func() {
 		evt++
 		gcCall = evt
@@ -413,6 +443,13 @@ func c16Concurrent(r *Run, cfg *Stream) {
 			}
 		}
 		r.Mix(g.String())
+	}
+	for k, want := range relaxed {
+		if g, ok := got[k]; !ok || !equalRows(g, want.canonical()) {
+			r.Fail("gc-stale-rule", "", "the rule of f1 was relaxed to max-versions 1000 (acknowledged) while a pass was running; row %q was written afterwards with three versions, which only the new rule ever applied to, but after the pass it reads %s (old rule %s)", k, got[k], gcRuleString(rule))
+			return
+		}
+		delete(got, k)
 	}
 	for k := range got {
 		if _, ok := mt.Rows[k]; !ok {
